@@ -6,6 +6,8 @@
   MvModel/BincodeLemmas.lean.
 -/
 import MvProps.C30Lemmas
+import MvModel.BincodeLemmas
+import MvModel.Toc
 set_option linter.unusedSimpArgs false
 set_option linter.unusedVariables false
 
@@ -312,3 +314,173 @@ example : (match readTrack (trackBytes [⟨5, 2⟩, ⟨-1, 7⟩]) 0 44 with
     | .error .unsorted => true | _ => false) = true := by decide
 
 end Mv.TimeIndex
+
+/-! ## Bincode (generic) and the TOC (src/toc.rs) -/
+namespace Mv.Toc
+open Mv.Bincode Mv.Gen.C30Toc
+
+/-- **C30_bincode_prefix** — the one generic theorem: for every schema, every well-typed value and
+    every byte string `rest`, decoding `encode s v ++ rest` returns `v` and leaves exactly `rest`.
+    (`ext` is the foreign date parser; well-typedness of a `strExt` leaf says it is canonical for it.) -/
+theorem C30_bincode_prefix (ext : Nat → Bytes → Option Bytes) (s : Schema) (v : Value) (rest : Bytes)
+    (h : WellTyped ext s v) : decode ext s (encode s v ++ rest) = some (v, rest) :=
+  bincode_prefix ext s v rest h
+
+/-- **C30_bincode_exact** — the second generic theorem: at a strict schema (no lenient leaf) the
+    decoder accepts only canonical encodings.  Whatever `decode` returns is well typed and the bytes
+    it consumed are exactly the encoding of that value: a corrupted length prefix, option tag, enum
+    tag, bool or string is either rejected or yields the value the corrupted bytes canonically
+    spell — never anything else. -/
+theorem C30_bincode_exact (ext : Nat → Bytes → Option Bytes) (s : Schema) (hs : strict s = true)
+    (b : Bytes) (v : Value) (rest : Bytes) (h : decode ext s b = some (v, rest)) :
+    WellTyped ext s v ∧ b = encode s v ++ rest :=
+  bincode_exact ext s hs b v rest h
+
+/-- consequently, on strict schemas two different images never decode to the same value + rest -/
+theorem C30_bincode_injective (ext : Nat → Bytes → Option Bytes) (s : Schema) (hs : strict s = true)
+    (b b' : Bytes) (v : Value) (rest : Bytes)
+    (h : decode ext s b = some (v, rest)) (h' : decode ext s b' = some (v, rest)) : b = b' := by
+  rw [(bincode_exact ext s hs b v rest h).2, (bincode_exact ext s hs b' v rest h').2]
+
+/-- which parts of the generated TOC schema are strict: every manifest, the segment catalog, the
+    ticket, the queue — everything except `Frame` (its `canonical_encoding` is decoded leniently and
+    its `extra_metadata` / audio `tags` maps accept duplicate or unsorted keys) and `MemoryBinding`
+    (its date goes through chrono) -/
+theorem C30_toc_strict_parts :
+    strict s_SegmentMeta = true ∧ strict s_IndexManifests = true ∧ strict s_TimeIndexManifest = true ∧
+    strict s_TemporalTrackManifest = true ∧ strict s_MemoriesTrackManifest = true ∧ strict s_LogicMeshManifest = true ∧
+    strict s_SketchTrackManifest = true ∧ strict s_SegmentCatalog = true ∧ strict s_TicketRef = true ∧
+    strict s_ReplayManifest = true ∧ strict s_EnrichmentQueueManifest = true ∧
+    strict s_DocExifMetadata = true ∧ strict s_MediaManifest = true ∧ strict s_TextChunkManifest = true ∧
+    strict s_Frame = false ∧ strict s_DocAudioMetadata = false ∧ strict s_MemoryBinding = false := by decide
+
+theorem decodeLim_encode (ext : Nat → Bytes → Option Bytes) (s : Schema) (v : Value) (rest : Bytes)
+    (h : WellTyped ext s v) (hl : (encode s v).length ≤ LIMIT) :
+    decodeLim ext s (encode s v ++ rest) = some (v, rest) := by
+  unfold decodeLim
+  rw [bincode_prefix ext s v rest h]
+  have : (encode s v ++ rest).length - rest.length ≤ LIMIT := by simp; exact hl
+  simp [this, hl]
+
+/-- **C30_toc_roundtrip** — `Toc::decode(t.encode()) = Ok(t)` for every TOC value of the generated
+    schema whose encoding fits the decoder's byte limit (`MAX_INDEX_BYTES`). -/
+theorem C30_toc_roundtrip (ext : Nat → Bytes → Option Bytes) (t : Value)
+    (h : WellTyped ext tocSchema t) (hl : (encodeToc t).length ≤ LIMIT) :
+    decodeToc ext (encodeToc t) = .ok t := by
+  have := decodeLim_encode ext tocSchema t [] h hl
+  simp only [List.append_nil] at this
+  simp [decodeToc, encodeToc, this]
+
+/-- **C30_toc_rejects_trailing** — a valid TOC image followed by at least one byte is rejected with
+    "unexpected trailing bytes" (the legacy decoders are not even consulted). -/
+theorem C30_toc_rejects_trailing (ext : Nat → Bytes → Option Bytes) (t : Value) (extra : Bytes)
+    (h : WellTyped ext tocSchema t) (hl : (encodeToc t).length ≤ LIMIT) (hne : extra ≠ []) :
+    decodeToc ext (encodeToc t ++ extra) = .error .trailing := by
+  have := decodeLim_encode ext tocSchema t extra h hl
+  simp [decodeToc, encodeToc, this, hne]
+
+/-- **C30_toc_lenient_roundtrip** — `decode_lenient` ignores the trailing bytes and returns the value. -/
+theorem C30_toc_lenient_roundtrip (ext : Nat → Bytes → Option Bytes) (t : Value) (extra : Bytes)
+    (h : WellTyped ext tocSchema t) (hl : (encodeToc t).length ≤ LIMIT) :
+    decodeLenient ext (encodeToc t ++ extra) = .ok t := by
+  have := decodeLim_encode ext tocSchema t extra h hl
+  simp [decodeLenient, encodeToc, this]
+
+/-- **C30_toc_legacy_v2** — a pre-replay (V2) image that the current-format decoder does not
+    accept is read through `LegacyTocV2` and mapped by `From<LegacyTocV2>`; with trailing bytes it
+    is rejected. -/
+theorem C30_toc_legacy_v2 (ext : Nat → Bytes → Option Bytes) (l : Value) (extra : Bytes)
+    (h : WellTyped ext tocV2Schema l) (hl : (encode tocV2Schema l).length ≤ LIMIT)
+    (hcur : decodeLim ext tocSchema (encode tocV2Schema l ++ extra) = none) :
+    decodeToc ext (encode tocV2Schema l ++ extra) =
+      if extra ≠ [] then .error .trailingV2
+      else match remap fromV2 l with | some t => .ok t | none => .error .decode := by
+  have := decodeLim_encode ext tocV2Schema l extra h hl
+  simp only [decodeToc, hcur, this]
+  by_cases hne : extra = []
+  · cases hrm : remap fromV2 l <;> simp [hne, hrm]
+  · simp [hne]
+
+/-- **C30_toc_checksum_iff** — exactly when `verify_checksum` accepts: the stored checksum is the
+    hash of the current encoding with the checksum zeroed, or — only for a TOC without replay
+    manifest — of the V2 re-encoding, or — only without replay manifest and memories track — of
+    the V1 re-encoding. -/
+theorem C30_toc_checksum_iff (H : Bytes → Bytes) (t : Value) :
+    verifyChecksum H t = true ↔
+      (some (Value.bytes (H (encodeToc (zeroChecksum t)))) = storedChecksum t) ∨
+      (fieldsNone v2Guard t = true ∧ legacyDigest H toV2 tocV2Schema t = storedChecksum t ∧ (storedChecksum t).isSome = true) ∨
+      (fieldsNone v1Guard t = true ∧ legacyDigest H toV1 tocV1Schema t = storedChecksum t ∧ (storedChecksum t).isSome = true) := by
+  unfold verifyChecksum
+  split
+  · simp_all
+  · rename_i h1
+    split
+    · rename_i h2
+      simp only [Bool.and_eq_true, decide_eq_true_eq] at h2
+      simp [h1, h2]
+    · rename_i h2
+      split
+      · rename_i h3
+        simp only [Bool.and_eq_true, decide_eq_true_eq] at h3
+        simp [h1, h3]
+      · rename_i h3
+        simp only [Bool.and_eq_true, decide_eq_true_eq, not_and] at h2 h3
+        simp only [h1, false_or, Bool.false_eq_true, false_iff, not_or, not_and]
+        exact ⟨fun a b => h2 ⟨a, b⟩, fun a b => h3 ⟨a, b⟩⟩
+
+theorem guard_subset : ∀ i ∈ v2Guard, i ∈ v1Guard := by decide
+
+/-- **C30_toc_checksum_detects** — for a TOC that carries a replay manifest (any TOC written by the
+    current code path with replay data) a stored checksum different from the hash of its zeroed
+    encoding is always reported; no legacy fallback applies. -/
+theorem C30_toc_checksum_detects (H : Bytes → Bytes) (t : Value)
+    (hr : fieldsNone v2Guard t = false)
+    (hne : some (Value.bytes (H (encodeToc (zeroChecksum t)))) ≠ storedChecksum t) :
+    verifyChecksum H t = false := by
+  have h1 : fieldsNone v1Guard t = false := by
+    cases hc : fieldsNone v1Guard t with
+    | false => rfl
+    | true =>
+      have : fieldsNone v2Guard t = true := by
+        simp only [fieldsNone, List.all_eq_true] at hc ⊢
+        intro i hi; exact hc i (guard_subset i hi)
+      rw [this] at hr; cases hr
+  cases hv : verifyChecksum H t with
+  | false => rfl
+  | true =>
+    rcases (C30_toc_checksum_iff H t).mp hv with h | h | h
+    · exact absurd h hne
+    · rw [hr] at h; exact absurd h.1 (by simp)
+    · rw [h1] at h; exact absurd h.1 (by simp)
+
+/-- a stamped TOC verifies -/
+theorem C30_toc_checksum_accepts (H : Bytes → Bytes) (t : Value)
+    (h : storedChecksum t = some (Value.bytes (H (encodeToc (zeroChecksum t))))) : verifyChecksum H t = true :=
+  (C30_toc_checksum_iff H t).mpr (Or.inl h.symm)
+
+/-! non-vacuity: a concrete TOC value (no frames, one segment, ticket "m") is well typed at the
+    generated schema, round-trips, and is rejected with one trailing byte -/
+def extId (_ : Nat) (b : Bytes) : Option Bytes := some b
+
+def sampleToc : Value := Value.ofList [
+  .nat 1,
+  Value.ofList [Value.ofList [.nat 0, Value.ofList [.nat 0, .nat 2], .bytes (zeros 32), .nat 1, .nat 4096, .nat 512]],
+  .unit,
+  Value.ofList [.none, .unit, .none, .none],
+  .some (Value.ofList [.nat 8192, .nat 96, .nat 2, .bytes (zeros 32)]),
+  .none, .none, .none, .none,
+  Value.ofList [.nat 0, .nat 1, .bool false, .unit, .unit, .unit, .unit, .unit, .unit],
+  Value.ofList [.bytes [0x6D], .int (-1), .nat 3600, .nat 0, .bool false],
+  .none, .none,
+  Value.ofList [.unit, .nat 0],
+  .bytes (zeros 32), .bytes (zeros 32)]
+
+example : WellTyped extId tocSchema sampleToc := by unfold WellTyped; decide +kernel
+example : decide ((encodeToc sampleToc).length ≤ LIMIT) = true := by decide +kernel
+example : (match decodeToc extId (encodeToc sampleToc) with
+    | .ok t => decide (t = sampleToc) | .error _ => false) = true := by decide +kernel
+example : (match decodeToc extId (encodeToc sampleToc ++ [0]) with
+    | .error .trailing => true | _ => false) = true := by decide +kernel
+example : fieldsNone v2Guard sampleToc = true := by decide +kernel
+
+end Mv.Toc
